@@ -263,6 +263,39 @@ func c02Witness(name string, w *World) *History {
 		s.block([][]byte{txOLVM(forged, &to, 0, "5000000000000000000", 30000, nil), txOLVM(att, &to, 0, "1000000000", 30000, nil)},
 			"olvm transfer with a foreign From signed by the attacker", "olvm transfer")
 		s.empty(1)
+	case "double_unstake":
+		// several unstakes of ONE delegator in one block maturing at the same height: same validator twice, and two validators
+		// of one stake address; then past maturity, and the withdrawable amount is withdrawn
+		v0, x := w.Vals[0], ValSpec{Val: w.Extra[1].Val, Stake: w.Vals[0].Stake}
+		s.empty(2)
+		s.block([][]byte{txStake(x, oltAmt("700000"), s.memo())}, "stake a second validator from the stake address of v0")
+		s.empty(1)
+		s.block([][]byte{txUnstake(v0, oltAmt("300"), s.memo()), txUnstake(v0, oltAmt("500"), s.memo()), txUnstake(x, oltAmt("70"), s.memo())},
+			"unstake 300", "unstake 500 (same delegator, same validator, same block)", "unstake 70 (same delegator, other validator)")
+		s.block([][]byte{txUnstake(v0, oltAmt("11"), s.memo())}, "unstake 11")
+		s.empty(4)
+		s.block([][]byte{txWithdraw(v0, oltAmt("870"), s.memo()), txWithdraw(v0, oltAmt("11"), s.memo()), txWithdraw(v0, oltAmt("1"), s.memo())},
+			"withdraw 870 = everything unstaked in the first block", "withdraw 11", "withdraw 1 more than was ever unstaked")
+		s.empty(1)
+	case "self_stake_foreign_slot0":
+		// a validator candidate staking from its own node key (stake address = validator address): both required signers are one
+		// key.  Then STAKE / UNSTAKE whose signature list has a victim's PUBLIC key with junk bytes in slot 0 and the genuine
+		// signature in slot 1, at a high fee price: the fee goes to Signatures[0]'s address
+		self := ValSpec{Val: w.Extra[1].Stake, Stake: w.Extra[1].Stake}
+		s.empty(2)
+		s.block([][]byte{txStake(self, oltAmt("600000"), s.memo())}, "stake self")
+		s.empty(1)
+		forge := func(tx []byte, vic Key) []byte {
+			stx := decodeSigned(tx)
+			raw := stx.RawTx
+			raw.Fee.Price = action.Amount{Currency: "OLT", Value: bigAmt("1000000000000000")}
+			good := decodeSigned(signRaw(raw, self.Stake)).Signatures[0]
+			out := action.SignedTx{RawTx: raw, Signatures: []action.Signature{{Signer: vic.Pub, Signed: []byte("junkjunkjunkjunkjunkjunkjunkjunkjunkjunkjunkjunkjunkjunkjunkjunk")}, good}}
+			return encodeSigned(&out)
+		}
+		s.block([][]byte{forge(txStake(self, oltAmt("10"), s.memo()), u1), forge(txUnstake(self, oltAmt("5"), s.memo()), u2)},
+			"stake self, slot 0 = victim u1's public key + junk", "unstake self, slot 0 = victim u2's public key + junk")
+		s.empty(1)
 	case "two_finalized_in_one_block":
 		full := scenarioHistory("govupdate", w)
 		s.h.Blocks, s.h.Descr = full.Blocks[:7], full.Descr[:7]
@@ -412,7 +445,7 @@ func c02Main(args []string) int {
 			}
 		}
 		world := [3]int{3, 5, 2}
-		for _, name := range []string{"proposal_fund_negative", "two_finalized_in_one_block", "withdraw_funds_negative", "withdraw_reward_negative", "olvm_foreign_from"} {
+		for _, name := range []string{"proposal_fund_negative", "two_finalized_in_one_block", "withdraw_funds_negative", "withdraw_reward_negative", "olvm_foreign_from", "double_unstake", "self_stake_foreign_slot0"} {
 			w := NewWorld(world[0], world[1], world[2])
 			c, p := c02RunHistory("witness_"+name, world, c02Witness(name, w))
 			cases = append(cases, c)
